@@ -219,6 +219,6 @@ pub fn def() -> PropDef {
             "queue size 0 and 1 both mean 1 and sizes above the server maximum are clamped to it (sanitize_queue_size, C23)",
         ],
         abort_possible: false,
-        parts: |tier| vec![part("queue_history", tier.pick(3000, 80000), case(), run)],
+        parts: |tier| vec![part("queue_history", tier.pick(3000, 4_000_000), case(), run)],
     }
 }
